@@ -114,7 +114,7 @@ func (r *Run) execute() *Run {
 	}
 	if err != nil || sr.err != nil {
 		r.Rec.Emit("hsResult", "cErr", errStr(err), "sErr", errStr(sr.err),
-			"cN", cN, "sN", sN, "c2s", 0, "s2c", 0)
+			"cN", cN, "sN", sN, "c2s", 0, "s2c", 0, "c2sGot", 0, "s2cGot", 0)
 		r.Rec.Emit("hsFail", "c", errStr(err), "s", errStr(sr.err))
 		if c != nil && err == nil {
 			c.Close()
@@ -134,6 +134,7 @@ func (r *Run) execute() *Run {
 	if cfg.HsProbe {
 		// first data exchange: one message each way
 		ok := [2]int{}
+		got := [2]int{}
 		perr := [2][2]string{}
 		var pw sync.WaitGroup
 		for i, pair := range [][2]*gbn.GoBackNConn{{c, sr.c}, {sr.c, c}} {
@@ -156,11 +157,17 @@ func (r *Run) execute() *Run {
 				if err == nil && PayloadID(b) == 1 {
 					ok[i] = 1
 				}
+				if err == nil {
+					// which message the application was handed (1: the
+					// peer's; anything else was not sent on this connection)
+					got[i] = PayloadID(b)
+				}
 			}()
 		}
 		pw.Wait()
 		r.Rec.Emit("hsResult", "cErr", "", "sErr", "", "cN", cN, "sN", sN,
-			"c2s", ok[0], "s2c", ok[1], "c2sErr", perr[0][0]+"|"+perr[0][1],
+			"c2s", ok[0], "s2c", ok[1], "c2sGot", got[0], "s2cGot", got[1],
+			"c2sErr", perr[0][0]+"|"+perr[0][1],
 			"s2cErr", perr[1][0]+"|"+perr[1][1])
 	}
 
